@@ -140,10 +140,15 @@ func runC17(r *mon.Run) {
 			}
 			c.op.prep(ws, c.variant)()
 		}
+		used := 0
 		for si, s := range secrets {
 			if s.v.Sign() == 0 && !c.op.zeroOK {
 				continue
 			}
+			if c.op.maxSecrets > 0 && (used >= c.op.maxSecrets || si%(1+len(secrets)/c.op.maxSecrets) != 0) {
+				continue
+			}
+			used++
 			sh := ""
 			if c.op.shape != nil {
 				sh = c.op.shape(s, c.variant)
@@ -186,7 +191,7 @@ func runC17(r *mon.Run) {
 				shapes[sh] = b.member
 			}
 		}
-		if compared < len(secrets)/2 {
+		if (c.op.maxSecrets == 0 && compared < len(secrets)/2) || compared < 2 {
 			r.Inconclusive("%s (variant %d): only %d of %d secrets fell into an output-shape bucket with a second member", c.op.name, c.variant, compared, len(secrets))
 		}
 		w.Class("c17:op:" + c.op.name)
